@@ -156,6 +156,23 @@ func (p *pool) exec(w *worker, c *Case) ([]Out, string) {
 			return []Out{{St: "hang", Err: "no answer within " + p.timeout.String(), Site: "?"}}, ""
 		}
 		what, site := w.postMortem()
+		if c.Req.Op == "ir" {
+			if parts := splitStage(c.Req.Stage); len(parts) > 0 {
+				// a grouped request died: run its stages one by one so that the
+				// death is attributed to one stage and the others are still judged
+				var outs []Out
+				for _, st := range parts {
+					sub := *c
+					sub.Req.Stage = st
+					o, _ := p.exec(w, &sub)
+					for i := range o {
+						o[i].Lang = st
+					}
+					outs = append(outs, o...)
+				}
+				return outs, ""
+			}
+		}
 		return []Out{{St: "fatal", Err: what, Site: site}}, ""
 	}
 	var resp Resp
@@ -211,8 +228,13 @@ func normMsg(s string) string {
 // panicClass is the message class of a panic value: type names are kept
 // (they identify the failed assertion), values are abstracted.
 func panicClass(s string) string {
+	// the dynamic type found by a failed assertion depends on the input, the
+	// asserted type identifies the assertion
+	s = reIfaceIs.ReplaceAllString(s, "interface conversion: $1 is …, not ")
 	return normMsg(s)
 }
+
+var reIfaceIs = regexp.MustCompile(`interface conversion: (interface \{\}|[A-Za-z0-9_.*]+) is .*?, not `)
 
 // errClass is a coarse class of an error message (for the vacuity figures only).
 func errClass(s string) string {
